@@ -267,9 +267,49 @@ class _FileStub:
         self.state = s
 
 
-@contract("stepup/core/trellis.py::Node.products", props=[], verify=False, note="the products of this node (database read)")
+def _product_nodes(self):
+    """products() without a type filter: node references; exactly the rows whose creator column is this node."""
+    from contracts import graphdb
+
+    c = cur()
+    db = common.db_of(self)
+    ids = c.fresh(c.fresh_name("products.ids"), tm.arr(INT, INT))
+    n = c.fresh(c.fresh_name("products.len"), INT)
+    c.pc.append(tm.Ge(n, tm.mk_int(0)))
+    graph = self._fields.get("graph")
+
+    idx = c.decls.fun(c.fresh_name("products.idx"), [INT], INT)
+
+    def elem(j):
+        i = tm.Select(ids, j, INT)
+        cr = graphdb.column(db0, "node", "creator", i)
+        # a listed node is a product; the listing has no duplicates (position function idx)
+        cur().pc.append(tm.Implies(tm.And(tm.Le(tm.mk_int(0), j), tm.Lt(j, n)),
+                                   tm.And(graphdb.exists(db0, "node", i), tm.Not(cr.null), tm.Eq(cr.t, I(self.i)),
+                                          tm.Eq(idx(i), j))))
+        return sym.SymObj(common.Node, dict(graph=graph, i=sym.wrap_int(i), label=ty.Str.fresh(cur().fresh_name("product.label"))),
+                          name="Node", frozen=True, eq_fields=("graph", "i", "label"))
+
+    db0 = db.__snapshot__()
+    q = sym.SymSeq(elem, n, name="products")
+    # completeness: every row whose creator is this node is listed (at the position idx)
+    m = tm.Var(c.fresh_name("m!bound"), INT)
+    crm = graphdb.column(db0, "node", "creator", m)
+    c.pc.append(tm.ForAll([(m.s, INT)], tm.Implies(
+        tm.And(graphdb.exists(db0, "node", m), tm.Not(crm.null), tm.Eq(crm.t, I(self.i))),
+        tm.And(tm.Le(tm.mk_int(0), idx(m)), tm.Lt(idx(m), n), tm.Eq(tm.Select(ids, idx(m), INT), m))),
+        patterns=[[crm.t]]))
+    q.ids = ids
+    q.idx = idx
+    return q
+
+
+@contract("stepup/core/trellis.py::Node.products", props=[], verify=False,
+          note="the products of this node (database read): with a type filter, objects whose state can be read and "
+               "set; without, references to exactly the nodes whose creator column is this node")
 class products_assumed:
-    result = lambda: ty.SeqOf(ty.Make(_FileStub))
+    result = lambda self, node_type=None: (ty.SeqOf(ty.Make(_FileStub)) if node_type is not None
+                                           else ty.Make(lambda n: _product_nodes(self)))
     modifies = []
 
 
